@@ -61,8 +61,8 @@ def rule_converters(ctx):
     need(len(sp) == 1, R, "load_delimited: row split not found")
     x = sp[0]
     base_ok = x.base.op == "call" and call_name(x.base) == "re.compile" and x.base.a[1][0].op == "param" and x.base.a[1][0].a[0] == "delimiter"
-    arg_ok = len(x.args) == 2 and x.args[0].op == "call" and call_name(x.args[0]) == ".strip" and len(x.args[0].a[1]) == 1
-    ms = x.args[1] if len(x.args) == 2 else None
+    ms = x.args[1] if len(x.args) == 2 else dict(x.kw).get("maxsplit")
+    arg_ok = len(x.args) + len(x.kw) == 2 and ms is not None and x.args and x.args[0].op == "call" and call_name(x.args[0]) == ".strip" and len(x.args[0].a[1]) == 1
     ms_ok = ms is not None and ms.op == "bin" and ms.a[0] == "-" and tm.is_const(ms.a[2], 1) and ms.a[1].op == "call" and call_name(ms.a[1]) == "builtins.len" and ms.a[1].a[1][0].op == "param" and ms.a[1].a[1][0].a[0] == "converters"
     yield ob(R, f, "io.load_delimited:split", base_ok and arg_ok and ms_ok, "row = re.compile(delimiter).split(line.strip(), len(converters) - 1): the last column keeps its inner whitespace", node=x.node)
     en = [y for y in s.calls() if y.callee == "builtins.enumerate"]
@@ -371,9 +371,17 @@ def rule_weightrange(ctx):
     f = ctx.program.func("io.load_tempo", R)
     s = ctx.S.get(f.qual)
     found = False
+    caught = []
     for r in s.by_kind("raise"):
         conds = list(symeval.pc_conds(r.pc))
         if not conds:
+            continue
+        if symeval.pc_in_try(r.pc):
+            # raised inside a try block of load_tempo: the surrounding handler turns it into a warning, it is not an error
+            last = conds[-1][0]
+            ks = {z.a[0] for x in tm.walk(last) if x.op == "cmp" for z in x.a[1:] if z.op == "const"}
+            if {0, 1} <= ks:
+                caught.append(r)
             continue
         c, pol = conds[-1]
         atoms = []
@@ -412,6 +420,9 @@ def rule_weightrange(ctx):
             if k == 1:
                 hi = fires in (("<", True), (">", False))
         yield ob(R, f, "io.load_tempo:weight-closed-range", bool(lo) and bool(hi), "the raise fires exactly for weight < 0 or weight > 1 (both bounds accepted)" if lo and hi else "the weight test rejects a bound of the closed interval [0, 1] (lower ok: %s, upper ok: %s)" % (lo, hi), node=r.node)
+    if not found and caught:
+        yield ob(R, f, "io.load_tempo:weight-closed-range", False, "the weight range test only raises inside the try block whose handler turns ValueError into a warning: a weight outside [0, 1] is returned instead of being rejected", node=caught[0].node)
+        return
     need(found, R, "load_tempo: weight range test not found")
 
 
